@@ -37,10 +37,10 @@ GROUPS.append(dict(name='write_extension_lacing', cls='F', tu='C16_write_payload
 
 META = {'enforced_elsewhere': ['skip_extension_payload'],
         'cex': {'tu': 'C16_roundtrip.c', 'entry': 'h_ext_arbitrary', 'unwind': 7, 'defines': ['-DVERIF_RAW=4', '-DVERIF_RAW_NF=2'], 'timeout': 1200}}
-for _c in (1, 2):
-    GROUPS.append(dict(name='out_range_ext_c%d' % _c, cls='F', tu='C16_out_range_ext.c', entry='h_out_range_ext', dfcc=False, canary='real', expect_canaries=1, unwind=16, timeout=3600, mem_gb=20, tier='quick' if _c == 1 else 'thorough',
-        defines=['-DVERIF_COUNT=%d' % _c], functions=['opus_repacketizer_out_range_impl', 'opus_packet_parse_impl', 'encode_size'],
+for (_c, _cap, _tier, _sfx) in ((1, 600, 'quick', ''), (1, 1100, 'thorough', '_full'), (2, 1100, 'thorough', '')):
+    GROUPS.append(dict(name='out_range_ext_c%d%s' % (_c, _sfx), cls='F' if _cap == 1100 else 'B', tu='C16_out_range_ext.c', entry='h_out_range_ext', dfcc=False, canary='real', expect_canaries=1, unwind=16, timeout=3600, mem_gb=20, tier=_tier,
+        defines=['-DVERIF_COUNT=%d' % _c, '-DVERIF_EXT_CAP=%d' % _cap], functions=['opus_repacketizer_out_range_impl', 'opus_packet_parse_impl', 'encode_size'],
         ignore=[(r'same object violation in ptr - frames', 'OPUS_MOVE type-check term 0*((dst)-(src)) on distinct buffers')],
-        trusted=['stub of opus_packet_extensions_generate (reports a symbolic size <= 1100, records where it writes); frame-only memmove stub'],
-        bounds='%d frame(s) of 0..300 bytes, serialised extensions of any size 1..1100 bytes (covers the 254/255/509/510/763 boundaries), any maxlen, no extra padding requested' % _c,
+        trusted=['stub of opus_packet_extensions_generate (reports a symbolic size <= %d, records where it writes); frame-only memmove stub' % _cap],
+        bounds='%d frame(s) of 0..300 bytes, serialised extensions of any size 1..%d bytes (covers the 254/255/509/510%s boundaries), any maxlen, no extra padding requested' % (_c, _cap, '/763/1020' if _cap == 1100 else ''),
         what='placement of the serialised extensions inside the output packet: exactly the tail of the padding area as the real parser sees it, preceded by 0x01 fill'))
